@@ -5,8 +5,8 @@ W = "scylla-cql-core/src/serialize/writers.rs:"
 PROPERTY = {
     "title": "CQL value encoding conforms to the protocol and round-trips",
     "level": "other",
-    "level_text": "Mixed, reported separately: (proof, unbounded buffers/contents) Verus proves on the extracted real CellWriter/CellValueBuilder/RowWriter functions the framing every encoded value goes through: null = be32(-1), unset = be32(-2), a value = be32(len) ++ bytes with len > i32::MAX refused and nothing written, the builder's placeholder is back-patched with exactly the big-endian length of what follows and nothing else changes, value_count grows by one per cell. (complete / bounded) Kani compares each native carrier's serialize output with an independent spec encoder and round-trips it through deserialize.",
-    "level_note": "Trusted: Verus/Z3, Kani/CBMC; i32::to_be_bytes, slice copy_from_slice (external_body); Not covered yet: containers at arbitrary nesting (inductive step with symbolic elements), feature-gated carriers.",
+    "level_text": "Mixed, reported separately: (proof, unbounded buffers/contents) Verus proves on the extracted real CellWriter/CellValueBuilder/RowWriter functions the framing every encoded value goes through: null = be32(-1), unset = be32(-2), a value = be32(len) ++ bytes with len > i32::MAX refused and nothing written, the builder's placeholder is back-patched with exactly the big-endian length of what follows and nothing else changes, value_count grows by one per cell. (complete / bounded) Kani compares each fixed-width native carrier's serialize output (every value, every one of the 20 native column types) with an independent spec encoder and round-trips it through deserialize; the same for inet (every IPv4/IPv6 address), the vint codec (every u64/i64), text (2-byte ASCII, the empty cell) and blob (<= 4 bytes).",
+    "level_note": "Trusted: Verus/Z3, Kani/CBMC; i32::to_be_bytes, slice copy_from_slice (external_body); Not covered: varint/decimal/duration bodies, collection/tuple/UDT carriers (their writers are proved, their element loops are not; binding a Vec already exceeds CBMC), feature-gated carriers.",
     "technique": "contract-based deductive verification: Verus contracts on extracted writer functions (+ Kani harnesses vs. independent spec encoder for carriers)",
     "explanation": "framing layer: deductive proof (Verus). carriers: Kani harnesses, complete for fixed-width natives, bounded for variable-length and containers",
     "verus": [
@@ -42,5 +42,5 @@ PROPERTY = {
     ],
     "trusted_base": ["Verus/Z3 soundness", "i32::to_be_bytes (big-endian)", "Vec slicing + copy_from_slice"],
     "assumptions": [],
-    "not_covered": ["carriers/containers (pending Kani harnesses)"],
+    "not_covered": ["varint/decimal/duration bodies", "collection/tuple/UDT carriers at any nesting (only the cell/row writers they go through are proved)", "carriers behind optional cargo features"],
 }
